@@ -30,14 +30,14 @@ Section ToBook.
 
   Definition book_entries (ts : list stxn) : list Book.entry := map (fun t => Book.ETxn (book_txn t)) ts.
 
-  (* one funding transaction per commodity: account +v, equity -v *)
-  Definition fund_txn (acct equity : str) (date : Z) (cv : str * Qc) : Book.entry :=
-    let amt (v : Qc) := Some (VAmt v (match fst cv with [] => None | c => Some (cid_of c) end)) in
-    Book.ETxn {| Book.t_date := date;
-                 Book.t_posts := [ {| Book.p_account := aid_of acct; Book.p_amount := amt (snd cv);
-                                      Book.p_cost := None; Book.p_lot := None; Book.p_balance := None |};
-                                   {| Book.p_account := aid_of equity; Book.p_amount := amt (- snd cv);
-                                      Book.p_cost := None; Book.p_lot := None; Book.p_balance := None |} ] |}.
-  Definition funding (acct equity : str) (date : Z) (b0 : list (str * Qc)) : list Book.entry :=
-    map (fund_txn acct equity date) b0.
 End ToBook.
+
+(* one funding transaction per commodity: account +v, equity -v *)
+Definition fund_stxn (acct equity : str) (date : Z) (cv : str * dec) : stxn :=
+  let post (a : str) (v : dec) :=
+    {| sp_account := a; sp_clear := Uncleared; sp_amount := {| oa_value := v; oa_commodity := fst cv |};
+       sp_cost := None; sp_balance := None; sp_payee := None |} in
+  {| st_date := date; st_edate := None; st_clear := Cleared; st_code := None; st_payee := [];
+     st_comments := []; st_posts := [post acct (snd cv); post equity (dec_opp (snd cv))] |}.
+Definition funding (acct equity : str) (date : Z) (b0 : list (str * dec)) : list stxn :=
+  map (fund_stxn acct equity date) b0.
